@@ -99,7 +99,9 @@ def post_explore(ctx, res, pids, opts):
         # ---- state round trip through the public from-array constructor and readable decoder
         st = State.from_numpy(x.flatten(), shape, hnm)
         counts["state_roundtrips"] += 1
-        if st.tensor.shape != shape or not np.array_equal(st.tensor, x):
+        if st.tensor.shape != shape or not np.array_equal(st.tensor, x) \
+                or not np.array_equal(np.asarray(st.numpy()), x) \
+                or not np.array_equal(np.asarray(st.numpy_flat()), x.reshape(-1)):
             rep("State.from_numpy_does_not_reproduce_the_array", {}, key)
         elif unique_names:
             rd_all = st.get_readable()
@@ -141,8 +143,14 @@ def post_explore(ctx, res, pids, opts):
             if o2[: lay.nhosts].any():
                 counts["nontrivial"] += 1
             ob = Observation.from_numpy(o1, shape)
-            if not np.array_equal(ob.tensor, o2):
-                rep("Observation.from_numpy_does_not_reproduce_the_array", {"action_index": a_idx}, key)
+            ob2 = Observation.from_numpy(o2, shape)
+            bad_rt = [nm for nm, got, want in (
+                ("from_numpy(1D).tensor", ob.tensor, o2), ("from_numpy(1D).numpy()", ob.numpy(), o2),
+                ("from_numpy(1D).numpy_flat()", ob.numpy_flat(), o1), ("from_numpy(2D).numpy()", ob2.numpy(), o2),
+                ("from_numpy(2D).numpy_flat()", ob2.numpy_flat(), o1))
+                if np.asarray(got).shape != np.asarray(want).shape or not np.array_equal(np.asarray(got), want)]
+            if bad_rt:
+                rep("Observation.from_numpy_does_not_reproduce_the_array", {"action_index": a_idx, "accessors": bad_rt}, key)
                 break
             if unique_names:
                 host_obs, aux_obs = ob.get_readable()
